@@ -24,6 +24,8 @@ func main() {
 		cmdRun(os.Args[2:])
 	case "gen":
 		cmdGen(os.Args[2:])
+	case "conc1":
+		cmdConc1()
 	default:
 		fmt.Fprintln(os.Stderr, "unknown command", os.Args[1])
 		os.Exit(2)
@@ -65,6 +67,10 @@ func cmdRun(args []string) {
 		normalizeCase(&c)
 		if c.Pool != nil && len(c.Ops) == 0 && c.Fam == "" {
 			rn.pool = c.Pool
+			continue
+		}
+		if c.Fam == "conc" {
+			rn.runConcCase(&c, append([]byte{}, b...))
 			continue
 		}
 		rn.runCase(&c)
